@@ -55,7 +55,8 @@ def main(ids):
                     ls = [l for l in open(cand).read().splitlines() if "clean_demo_rc" in l]
                     if ls:
                         vline = ls[-1]
-            if "clean_demo_rc=0 patched_demo_rc=1" not in vline or "test_failures=3 (known 3)" not in vline:
+            import re as _re
+            if not _re.search(r"clean_demo_rc=0 patched_demo_rc=[1-9]", vline) or "test_failures=3 (known 3)" not in vline:
                 print(pid, n, "NOT CONFIRMED:", vline)
                 continue
             caught = evaluate_all(patch)
